@@ -7,6 +7,9 @@ Import ListNotations.
 
 Definition str := list ascii.
 
+(* linear-time reverse (List.rev is quadratic); frev l = rev l, see Proofs *)
+Definition frev {A : Type} (l : list A) : list A := rev_append l [].
+
 Definition b (c : ascii) : nat := nat_of_ascii c.
 Definition ch (n : nat) : ascii := ascii_of_nat n.
 
@@ -48,7 +51,7 @@ Fixpoint trim_left (c : ascii) (l : str) : str :=
   | x :: r => if Ascii.eqb x c then trim_left c r else l
   | [] => []
   end.
-Definition trim_right (c : ascii) (l : str) : str := rev (trim_left c (rev l)).
+Definition trim_right (c : ascii) (l : str) : str := frev (trim_left c (frev l)).
 (* strings.Trim(s, cutset) for a one-byte cutset *)
 Definition trim (c : ascii) (l : str) : str := trim_right c (trim_left c l).
 (* strings.TrimPrefix(s, p) for a one-byte p *)
@@ -62,7 +65,7 @@ Fixpoint has_prefix (p s : str) : bool :=
   | _ :: _, [] => false
   end.
 (* strings.HasSuffix *)
-Definition has_suffix (s suf : str) : bool := has_prefix (rev suf) (rev s).
+Definition has_suffix (s suf : str) : bool := has_prefix (frev suf) (frev s).
 (* strings.TrimSuffix *)
 Definition trim_suffix (s suf : str) : str :=
   if has_suffix s suf then firstn (List.length s - List.length suf) s else s.
@@ -155,7 +158,7 @@ Definition is_dot (e : str) : bool := str_eqb e [c_dot].
 (* the element stack is kept reversed (top first) *)
 Fixpoint clean_elems (rooted : bool) (es : list str) (stk : list str) : list str :=
   match es with
-  | [] => rev stk
+  | [] => frev stk
   | e :: es' =>
       match e with
       | [] => clean_elems rooted es' stk
@@ -203,8 +206,8 @@ Definition valid_path (p : str) : bool :=
 Inductive scan_end := ScanEOF | ScanTooLong.
 
 Definition drop_cr (l : str) : str :=
-  match rev l with
-  | c :: r => if Ascii.eqb c c_cr then rev r else l
+  match frev l with
+  | c :: r => if Ascii.eqb c c_cr then frev r else l
   | [] => []
   end.
 
@@ -217,12 +220,12 @@ Fixpoint scan_go (data : str) (cur : str) : list str * scan_end :=
   | [] =>
       match cur with
       | [] => ([], ScanEOF)
-      | _ => if too_long cur then ([], ScanTooLong) else ([drop_cr (rev cur)], ScanEOF)
+      | _ => if too_long cur then ([], ScanTooLong) else ([drop_cr (frev cur)], ScanEOF)
       end
   | c :: r =>
       if Ascii.eqb c c_lf then
         if too_long cur then ([], ScanTooLong)
-        else let '(ls, e) := scan_go r [] in (drop_cr (rev cur) :: ls, e)
+        else let '(ls, e) := scan_go r [] in (drop_cr (frev cur) :: ls, e)
       else scan_go r (c :: cur)
   end.
 
